@@ -3,13 +3,27 @@
    unfolding; at the real instance otherwise (no side condition is needed for any of them: over R there
    is no NaN, integer powers are defined for every base, and 0 < y, y < 0 exclude each other). *)
 From Coq Require Import Reals ZArith List Lra Lia Bool.
-From GS Require Import Num Loops Formulas Formulas_gen C19_Model C19_RInst C19_Proofs.
+From GS Require Import Num Loops Formulas Formulas_gen C19_Model C19_RInst C19_Proofs C19_Final.
 Import ListNotations.
 Open Scope R_scope.
 
 (* array_to_lognormal: np.exp(field), any number type *)
 Lemma array_to_lognormal_tie {T} (O : NumOps T) (field : list T) :
   map (Formulas_gen.array_to_lognormal O) field = C19_Model.array_to_lognormal O field.
+Proof. reflexivity. Qed.
+
+(* array_to_uniform (mean, var given): same term up to unfolding, any number type *)
+Lemma array_to_uniform_tie {T} (O : NumOps T) (field mean var low high : T) :
+  Formulas_gen.array_to_uniform O field mean var low high = to_uniform_elem O mean var low high field.
+Proof. reflexivity. Qed.
+
+(* array_zinnharvey (mean, var given), conn = "low" / "high": same term up to unfolding, any number type *)
+Lemma array_zinnharvey_low_tie {T} (O : NumOps T) (field mean var : T) :
+  Formulas_gen.array_zinnharvey_low O field mean var = zinnharvey_elem O false mean var field.
+Proof. reflexivity. Qed.
+
+Lemma array_zinnharvey_high_tie {T} (O : NumOps T) (field mean var : T) :
+  Formulas_gen.array_zinnharvey_high O field mean var = zinnharvey_elem O true mean var field.
 Proof. reflexivity. Qed.
 
 Section TieR.
@@ -58,6 +72,33 @@ Section TieR.
     Formulas_gen.BoxCox_denormalize O lmbda data = boxcox_denormalize O lmbda data.
   Proof. unfold Formulas_gen.BoxCox_denormalize, boxcox_denormalize. rewrite fisclose_0. reflexivity. Qed.
 
+  (* array_to_arcsin / array_to_uquad with given mean, var and bounds, and with the default bounds *)
+  Lemma array_to_arcsin_tie (field mean var a b : R) :
+    Formulas_gen.array_to_arcsin O field mean var a b = to_arcsin_elem O mean var a b field.
+  Proof. unfold Formulas_gen.array_to_arcsin. cbv zeta. rewrite uniform_to_arcsin_tie. reflexivity. Qed.
+
+  Lemma array_to_arcsin_default_bounds_tie (field mean var a b : R) :
+    Formulas_gen.array_to_arcsin_default_bounds O field mean var a b
+    = to_arcsin_elem O mean var (arcsin_default_a O mean var) (arcsin_default_b O mean var) field.
+  Proof. unfold Formulas_gen.array_to_arcsin_default_bounds. cbv zeta. rewrite uniform_to_arcsin_tie. reflexivity. Qed.
+
+  Lemma array_to_uquad_tie (field mean var a b : R) :
+    Formulas_gen.array_to_uquad O field mean var a b = to_uquad_elem O mean var a b field.
+  Proof. unfold Formulas_gen.array_to_uquad. cbv zeta. rewrite uniform_to_uquad_tie. reflexivity. Qed.
+
+  Lemma array_to_uquad_default_bounds_tie (field mean var a b : R) :
+    Formulas_gen.array_to_uquad_default_bounds O field mean var a b
+    = to_uquad_elem O mean var (uquad_default_a O mean var) (uquad_default_b O mean var) field.
+  Proof. unfold Formulas_gen.array_to_uquad_default_bounds. cbv zeta. rewrite uniform_to_uquad_tie. reflexivity. Qed.
+
+  (* array_boxcox: np.maximum(.., 0) is one comparison in the translation, NaN-propagating in the model: equal over R *)
+  Lemma array_boxcox_tie (field lmbda shift : R) :
+    Formulas_gen.array_boxcox O field lmbda shift = array_boxcox_elem O lmbda shift field.
+  Proof.
+    unfold Formulas_gen.array_boxcox, array_boxcox_elem. cbv zeta. rewrite fisclose_0.
+    destruct (isclose0 O lmbda); reflexivity.
+  Qed.
+
   (* consequences stated on the translated source formulas *)
   Lemma source_arcsine_ppf a b u : a < b -> 0 < u < 1 ->
     cdf_arcsine a b (Formulas_gen.uniform_to_arcsin O u a b) = u.
@@ -78,3 +119,98 @@ Section TieR.
     - destruct H as [H|H]; [discriminate|]. now apply H2.
   Qed.
 End TieR.
+
+(* ------------------------------------------------------------------ the property theorems on the translated source terms *)
+Section SourceR.
+  Variables erf erfinv : R -> R.
+  Hypothesis H : erf_hyps erf erfinv.
+  Notation O := (Rops erf erfinv).
+
+  Lemma source_uniform_pushforward m v low high : 0 < v -> low < high ->
+    (forall x, cdf_uniform low high (Formulas_gen.array_to_uniform O x m v low high) = ncdf erf m v x) /\
+    (forall x, low < Formulas_gen.array_to_uniform O x m v low high < high) /\
+    (forall x y, x < y -> Formulas_gen.array_to_uniform O x m v low high < Formulas_gen.array_to_uniform O y m v low high).
+  Proof.
+    intros Hv Hl. destruct (F_uniform erf erfinv H m v low high Hv Hl) as (A & B & C).
+    repeat split; intros; rewrite ?array_to_uniform_tie; auto; apply B.
+  Qed.
+
+  Lemma source_arcsine_pushforward m v a b : 0 < v -> a < b ->
+    (forall x, cdf_arcsine a b (Formulas_gen.array_to_arcsin O x m v a b) = ncdf erf m v x) /\
+    (forall x, a < Formulas_gen.array_to_arcsin O x m v a b < b) /\
+    (forall x y, x < y -> Formulas_gen.array_to_arcsin O x m v a b < Formulas_gen.array_to_arcsin O y m v a b).
+  Proof.
+    intros Hv Hab. destruct (F_arcsine erf erfinv H m v a b Hv Hab) as (A & B & C).
+    repeat split; intros; rewrite ?array_to_arcsin_tie; auto; apply B.
+  Qed.
+
+  Lemma source_uquad_pushforward m v a b : 0 < v -> a < b ->
+    (forall x, cdf_uquad a b (Formulas_gen.array_to_uquad O x m v a b) = ncdf erf m v x) /\
+    (forall x, a < Formulas_gen.array_to_uquad O x m v a b < b) /\
+    (forall x y, x < y -> Formulas_gen.array_to_uquad O x m v a b < Formulas_gen.array_to_uquad O y m v a b).
+  Proof.
+    intros Hv Hab. destruct (F_uquad erf erfinv H m v a b Hv Hab) as (A & B & C).
+    repeat split; intros; rewrite ?array_to_uquad_tie; auto; apply B.
+  Qed.
+
+  (* default bounds (a = b = None in the source): the bounds computed by the source are a proper interval whose arcsine /
+     U-quadratic law has mean m and variance v, and the transformation pushes N(m, v) forward to that law *)
+  Lemma source_arcsine_default m v : 0 < v ->
+    let a := m - sqrt (2 * v) in
+    let b := m + sqrt (2 * v) in
+    a < b /\ arcsine_mean a b = m /\ arcsine_var a b = v /\
+    (forall x a0 b0, cdf_arcsine a b (Formulas_gen.array_to_arcsin_default_bounds O x m v a0 b0) = ncdf erf m v x) /\
+    (forall x y a0 b0, x < y ->
+       Formulas_gen.array_to_arcsin_default_bounds O x m v a0 b0 < Formulas_gen.array_to_arcsin_default_bounds O y m v a0 b0).
+  Proof.
+    intros Hv a b.
+    destruct (F_default_bounds erf erfinv m v (Rlt_le _ _ Hv)) as (M1 & V1 & _ & _ & Hlt).
+    destruct (Hlt Hv) as [Hab _].
+    change (arcsin_default_a O m v) with a in *. change (arcsin_default_b O m v) with b in *.
+    destruct (F_arcsine erf erfinv H m v a b Hv Hab) as (A & B & C).
+    repeat split; auto; intros; rewrite !array_to_arcsin_default_bounds_tie; auto.
+  Qed.
+
+  Lemma source_uquad_default m v : 0 < v ->
+    let a := m - sqrt (5 / 3 * v) in
+    let b := m + sqrt (5 / 3 * v) in
+    a < b /\ uquad_mean a b = m /\ uquad_var a b = v /\
+    (forall x a0 b0, cdf_uquad a b (Formulas_gen.array_to_uquad_default_bounds O x m v a0 b0) = ncdf erf m v x) /\
+    (forall x y a0 b0, x < y ->
+       Formulas_gen.array_to_uquad_default_bounds O x m v a0 b0 < Formulas_gen.array_to_uquad_default_bounds O y m v a0 b0).
+  Proof.
+    intros Hv a b.
+    destruct (F_default_bounds erf erfinv m v (Rlt_le _ _ Hv)) as (_ & _ & M1 & V1 & Hlt).
+    destruct (Hlt Hv) as [_ Hab].
+    change (uquad_default_a O m v) with a in *. change (uquad_default_b O m v) with b in *.
+    destruct (F_uquad erf erfinv H m v a b Hv Hab) as (A & B & C).
+    repeat split; auto; intros; rewrite !array_to_uquad_default_bounds_tie; auto.
+  Qed.
+
+  Lemma source_zinnharvey m v : 0 < v ->
+    (forall x, x <> m ->
+       ncdf erf m v (Formulas_gen.array_zinnharvey_low O x m v) = halfnormal_cdf erf (Rabs ((x - m) / sqrt v)) /\
+       ncdf erf m v (Formulas_gen.array_zinnharvey_high O x m v) = 1 - halfnormal_cdf erf (Rabs ((x - m) / sqrt v))) /\
+    (forall x y, x <> m -> Rabs (x - m) < Rabs (y - m) ->
+       Formulas_gen.array_zinnharvey_low O x m v < Formulas_gen.array_zinnharvey_low O y m v /\
+       Formulas_gen.array_zinnharvey_high O y m v < Formulas_gen.array_zinnharvey_high O x m v) /\
+    (forall x, Formulas_gen.array_zinnharvey_high O x m v - m = - (Formulas_gen.array_zinnharvey_low O x m v - m)).
+  Proof.
+    intros Hv. destruct (F_zinnharvey erf erfinv H m v Hv) as (A & B & C).
+    repeat split; intros; rewrite ?array_zinnharvey_low_tie, ?array_zinnharvey_high_tie;
+      try (apply A; assumption); try (apply B; assumption); apply C.
+  Qed.
+End SourceR.
+
+Section SourceBoxcox.
+  Variables erf erfinv : R -> R.
+  Notation O := (Rops erf erfinv).
+  (* both sides are translated source terms: BoxCox._normalize after array_boxcox is the shift *)
+  Lemma source_boxcox_roundtrip lmbda shift x :
+    fisclose O lmbda (n0 O) = true \/ 0 < lmbda * (x + shift) + 1 ->
+    Formulas_gen.BoxCox_normalize O lmbda (Formulas_gen.array_boxcox O x lmbda shift) = x + shift.
+  Proof.
+    intros Hc. rewrite array_boxcox_tie. apply source_boxcox_inverse.
+    rewrite fisclose_0 in Hc. exact Hc.
+  Qed.
+End SourceBoxcox.
